@@ -154,6 +154,9 @@ def run_case(case, PROP='C01'):
         obs['write-raised'] = obs.get('write-raised', 0) + 1
         obs['raised:%s:%s' % (run.wout[1], run.wout[2][:60])] = 1
         return {'evals': 1, 'violations': [], 'obs': obs, 'sigs': [], 'sample': None}
+    if getattr(run, 'prior_kind', None):
+        obs['target-path-was-occupied:' + run.prior_kind] = 1
+        obs['target-path-was-occupied'] = 1
     oracle.check_c01(run)
     oracle.check_c02(run)      # tap comparison feeds the pad-count clause; only C01 violations are reported here
     cap = mx - 8
